@@ -24,6 +24,8 @@ pub struct Config {
     pub thorough: bool,
     /// live-set target: number of root slots in use etc. are scaled from this
     pub max_live_kb: usize,
+    /// C09: percentage of the heap a cycle fills before dropping everything
+    pub fill_pct: usize,
     pub pin_roots: bool,
     pub weak: bool,
     /// C08: mutators probe is_mmtk_object / find_object_from_internal_pointer on their objects
@@ -68,6 +70,7 @@ impl Config {
             extra_opts: extra,
             thorough: a.thorough(),
             max_live_kb: a.usize_or("live-kb", 2048),
+            fill_pct: a.usize_or("fill-pct", 30),
             pin_roots: a.flag("pin-roots"),
             weak: a.flag("weak"),
             lookups: a.flag("lookups"),
